@@ -158,8 +158,13 @@ func VH_Execve() {
 	text := "argc=" + strconv.Itoa(argc)
 	var args [][]byte
 	for i := 0; i < argc; i++ {
-		v := vValue("arg", n, 1)
-		vNotPlaceholder(v)
+		var v []byte
+		if vParam("symlast", 0) != 0 && i < argc-1 {
+			v = []byte{'x', byte('0' + i%10)} // many arguments: only the last one is symbolic
+		} else {
+			v = vValue("arg", n, 1)
+			vNotPlaceholder(v)
+		}
 		if long := vParam("long", 0); long > len(v) && i == argc-1 {
 			stem := make([]byte, long-len(v))
 			for k := range stem {
